@@ -16,10 +16,12 @@ def tasks(tier, seed):
     if tier == "quick":
         ts += [{"kind": "small", "part": i, "parts": 8, "stride": 12, "n": 3} for i in range(8)]
         ts += [{"kind": "rnd", "count": 250, "seed": seed * 10 + i, "n": 3} for i in range(4)]
+        ts += [{"kind": "eps_graph", "count": 120, "seed": seed * 10 + i, "n": 2} for i in range(3)]
         ts += [{"kind": "tree", "depths": [9, 10], "limits": [1000, 3000]} for _ in range(3)]
     else:
         ts += [{"kind": "small", "part": i, "parts": 32, "stride": 1, "n": 3} for i in range(32)]
         ts += [{"kind": "rnd", "count": 1500, "seed": seed * 10 + i, "n": 4} for i in range(16)]
+        ts += [{"kind": "eps_graph", "count": 600, "seed": seed * 10 + i, "n": 3} for i in range(8)]
         ts += [{"kind": "tree", "depths": [8, 9, 10, 11], "limits": [500, 1000, 3000, 5000]} for _ in range(8)]
     return gen.spread(ts, hs)
 
@@ -88,10 +90,58 @@ def pc_events(P, src, rng, limit=None):
                 yield ev2
 
 
+def closure_need(P, n, cap=40):
+    """the size of the largest epsilon closure the acceptance test has to compute for a word <= n, or None if
+    some closure has more than cap configurations (plain breadth-first search, used only to CHOOSE a limit:
+    completeness is required from exactly this value on)"""
+    eps = P.epsilon
+
+    def succ(c, a):
+        q, st = c
+        for (p, b, u), tg in P.delta.items():
+            if p != q or b != a:
+                continue
+            for (r, v) in tg:
+                if u != eps and (not st or st[-1] != u):
+                    continue
+                base_ = st if u == eps else st[:-1]
+                yield (r, base_ if v == eps else base_ + (v,))
+
+    def close(C):
+        C = set(C)
+        todo = list(C)
+        while todo:
+            for d in succ(todo.pop(), eps):
+                if d not in C:
+                    C.add(d)
+                    todo.append(d)
+                    if len(C) > cap:
+                        return None
+        return C
+    need = 0
+    level = {(): close({(P.q0, ())})}
+    for _ in range(n + 1):
+        nxt = {}
+        for w, C in level.items():
+            if C is None:
+                return None
+            need = max(need, len(C))
+            for a in sorted(P.Sigma):
+                D = {d for c in C for d in succ(c, a)}
+                nxt[w + (a,)] = close(D)
+        level = nxt
+    return need
+
+
 def events(src, n, rng, limits=None):
     P = pdasrc.build(src)
     for limit in (limits or rng.sample(LIMITS, 2)):
         yield one_event(P, n, limit, src)
+    if limits is None:
+        need = closure_need(P, n)
+        if need is not None and need >= 2:
+            # the boundary: the smallest limit for which the statement demands completeness
+            yield one_event(P, n, need, src)
     if len(P.Q) <= 3:
         yield from pc_events(P, src, rng)
     # history: the same object is changed in place and asked again
@@ -120,6 +170,9 @@ def drive(task):
         for d in task["depths"]:
             for lim in task["limits"]:
                 yield one_event(pdasrc.tree_pda(d), 1, lim, {"kind": "pda_tree", "depth": d})
+    elif task["kind"] == "eps_graph":
+        for i in range(task["count"]):
+            yield from events({"kind": "pda_eps_graph", "seed": task["seed"] * 100000 + i}, task["n"], rng)
     else:
         for i in range(task["count"]):
             yield from events({"kind": "pda_rnd", "seed": task["seed"] * 100000 + i}, task["n"], rng)
@@ -147,7 +200,9 @@ MODELS = {"quick": [("PdaRun", "PdaRun_q.cfg", "all PDAs with <= 2 moves on 2 st
 RULE = ("PDAs on 2 states / input {a} / stack {X} with <= 3 of the 32 possible moves (every 12th in quick), 7 "
         "hand-written PDAs (a^n b^n, acceptance with non-empty stack, stack-growing epsilon cycle, replace moves, "
         "markers as stack symbols), random PDAs with 1-3 states, binary-tree PDAs whose initial closure has 2^(d+1)-1 "
-        "configurations; per PDA the verdicts for all words <= n under two of the limits {1,2,3,5,10,50} (trees: "
+        "configurations, 'epsilon-graph' PDAs with 4-8 states whose closures mix stack-free cycles and chains; per "
+        "PDA the verdicts for all words <= n under two of the limits {1,2,3,5,10,50} and under the BOUNDARY limit (the "
+        "size of the largest closure needed, computed by the harness) (trees: "
         "500-5000), then again after a transition was removed in place; for PDAs with <= 3 states one or two "
         "closure computations with every pop reported by the hooks, validated as behaviours of PdaRun's Pop action; "
         "every pop order of the closure on all PDAs with <= 3 moves x limits 1-4 (Schedules.tla, Algo pc) forced "
